@@ -250,6 +250,10 @@ type DeadOpt struct {
 	// a passive peer whose writes succeed (or block) that cannot lead to a teardown. The caller must make
 	// sure no write fault is armed on the transport.
 	TolerantPing bool
+	// IOWaitBlocked counts goroutines parked in the network poller ("IO wait") as blocked. That is sound when every
+	// socket of the process has its other end inside the process too (loopback scenarios whose server goroutines
+	// are part of the same census) and nobody sets deadlines: only a goroutine that can still move could write.
+	IOWaitBlocked bool
 }
 
 // ProveDeadOpt is ProveDead with options.
@@ -271,7 +275,7 @@ func ProveDeadOpt(d time.Duration, opt DeadOpt) DeadState {
 		if g.ID == self || isRuntimeGoro(g) {
 			continue
 		}
-		if !g.Blocked() {
+		if !g.Blocked() && !(opt.IOWaitBlocked && g.State == "IO wait") {
 			return DeadState{Reason: fmt.Sprintf("goroutine %d is %q", g.ID, g.State)}
 		}
 		if g.AtTimerSite() && !(opt.TolerantPing && g.LibRole() == "ping") {
